@@ -111,7 +111,7 @@ def part_tv(ctx, stats, n):
                 else:
                     ctx.violation(f"valid placement refused with UsageError outside every known class: {real['src']}", rep)
             continue
-        if real["body"] != m_body:
+        if RL.canon_tmps(real["body"]) != RL.canon_tmps(m_body):
             ctx.violation(f"rewritten AST differs from the model's rewriting.\nsource: {real['src']}real : {real['rw_src']}\nmodel: {RL.body_src(m_body)}", rep, kind="correspondence")
             continue
         stats["tv_ast_equal"] += 1
@@ -325,6 +325,8 @@ TEMPLATES = {
         "def fself({S}v10: Trig, v11: object):\n    h = lambda a: recurse(a, 1) + (\n        1 // a)\n    return (h(1), h(0))"),
     "nomethod_line": lambda r: dict(m_src=
         "def fself({S}v10: Trig, v11: object):\n    a = recurse(1, 1)\n\n    b = recurse(\n        'x', 'y')\n    return (a, b)"),
+    "nomethod_continuation_line": lambda r: dict(m_src=
+        "def fself({S}v10: Trig, v11: object):\n    b = (eff(1, 1),\n         2,\n         recurse('x',\n                 'y'))\n    return b"),
     "keyword_order": lambda r: dict(m_src=
         "def fself({S}v10: Trig, v11: object):\n    return (recurse([1], 1, v32=eff(1, [2]), v31=eff(2, 3)), recurse([1], 1, v31=eff(3, 3), v32=eff(4, [2])))"),
     "global_nonlocal": lambda r: dict(m_src=
@@ -416,7 +418,7 @@ def run(ctx):
     finally:
         shutil.rmtree(work, ignore_errors=True)
     return {"evaluations": stats["evaluations"], "distinct_nontrivial": len(stats["distinct"]),
-            "rule": "translation validation: random straight-line method bodies over the modelled grammar (every expression context; awkward placements -- *, **, positional-by-keyword, repeated keyword, bare symbols, symbol-named binders -- with small probability), 4 parameter shapes (function / method, type[...] positions, positional-only, keyword-only), distinct non-trivial = distinct bodies containing a recurse / call_next call; behaviour: random bodies of the executable sub-grammar registered in a real function / class next to 10 leaf methods, distinct by (body, argument, method?); templates: 24 hand-written contexts outside the grammar with randomised call sites",
+            "rule": "translation validation: random straight-line method bodies over the modelled grammar (every expression context; awkward placements -- *, **, positional-by-keyword, repeated keyword, bare symbols, symbol-named binders -- with small probability), 4 parameter shapes (function / method, type[...] positions, positional-only, keyword-only), distinct non-trivial = distinct bodies containing a recurse / call_next call; behaviour: random bodies of the executable sub-grammar registered in a real function / class next to 10 leaf methods, distinct by (body, argument, method?); templates: 25 hand-written contexts outside the grammar with randomised call sites",
             "samples": stats["samples"], "programs": stats["tv_programs"], "disagreements_checked": stats["tv_programs"],
             "tv_rewritten_ast_equal_to_model": stats["tv_ast_equal"], "tv_usage_errors_agreeing": stats["tv_usage_error"],
             "tv_invalid_originals_agreeing": stats["tv_invalid_original"], "tv_valid_and_in_domain": stats["tv_in_domain"], "tv_kf11_hits": stats["tv_kf11"],
@@ -444,7 +446,7 @@ def replay(ctx, payload):
                               "usage": [real["usage"], mr[0]], "valid": [real["valid"], mr[2]], "valid_rewritten": [real.get("valid_rw"), mr[3]]}, indent=1))
             bad = real["usage"] != bool(mr[0]) or real["valid"] != bool(mr[2])
             if not real["usage"]:
-                bad = bad or real["body"] != mr[1] or (real["valid"] and (real["valid_rw"] != bool(mr[3]) or not real["valid_rw"]))
+                bad = bad or RL.canon_tmps(real["body"]) != RL.canon_tmps(mr[1]) or (real["valid"] and (real["valid_rw"] != bool(mr[3]) or not real["valid_rw"]))
             else:
                 bad = bad or real["valid"]
             return bool(bad)
